@@ -62,7 +62,7 @@ func cat(ts ...tmpl) tmpl {
 var dirtyFeatures = []string{
 	"caret", "tab-colinc", "tab-default", "tab-in-block", "amp-in-block",
 	"radix", "english", "charparam", "nonint", "case-word", "upper-v", "nonascii",
-	"cond-bignum", "proc-nil", "v-nil", "plus-param",
+	"cond-bignum", "proc-nil", "v-nil", "plus-param", "octet",
 }
 
 // repaired in /repo since the pinned tree (findings with status "fixed: ..."):
@@ -133,7 +133,14 @@ func randBits(r *rand.Rand, bits int) *big.Int {
 	return x
 }
 
+func octv(n int64) ref.Val { return ref.Val{K: "i", S: fmt.Sprint(n), Oct: true} }
+
+// genInt: integers for the directives that print them (~D ~B ~O ~X ~A ~S);
+// one in twelve is an octet, slip's third integer representation.
 func genInt(r *rand.Rand) ref.Val {
+	if r.IntN(12) == 0 {
+		return octv(int64(fwPick(r, []int{0, 1, 2, 7, 9, 10, 99, 100, 127, 128, 200, 255})))
+	}
 	switch r.IntN(8) {
 	case 0, 1:
 		return iv(int64(r.IntN(41) - 20))
@@ -511,6 +518,12 @@ func (g *G) rDir() tmpl {
 		}}
 	}
 	f := g.englishInt(m == ":")
+	if g.use("octet") {
+		// an octet is an integer too (open finding: ~R ~P ~[ do not take it)
+		return tmpl{text: txt, n: 1, inst: func(r *rand.Rand) []ref.Val {
+			return []ref.Val{octv(int64(fwPick(r, []int{0, 1, 2, 7, 13, 21, 99, 101, 255})))}
+		}}
+	}
 	return tmpl{text: txt, n: 1, inst: func(r *rand.Rand) []ref.Val { return []ref.Val{f(r)} }}
 }
 
@@ -591,9 +604,13 @@ func (g *G) pluralDir() tmpl {
 	}
 	m := []string{"", "@"}[r.IntN(2)]
 	odd := g.r.IntN(8) == 0
+	oct := g.use("octet")
 	return tmpl{text: "~" + m + g.letter('p'), n: 1, inst: func(r *rand.Rand) []ref.Val {
+		if oct {
+			return []ref.Val{octv(int64(r.IntN(3)))}
+		}
 		if odd {
-			return []ref.Val{fwPick(r, []ref.Val{sv("1"), yv("foo"), nilv(), bv(pow(2, 64))})}
+			return []ref.Val{fwPick(r, []ref.Val{sv("1"), yv("foo"), nilv(), bv(pow(2, 64)), ov("1.0"), ov("1.0d0"), ov("3/2"), cv('1')})}
 		}
 		return []ref.Val{iv(int64(r.IntN(4) - 1))}
 	}}
@@ -935,6 +952,7 @@ func (g *G) condBlock(e env, nested bool) tmpl {
 		chosen = def
 	}
 	big := (sel < 0 || n <= sel) && g.use("cond-bignum")
+	oct := 0 <= sel && g.use("octet")
 	t := tmpl{text: txt, n: chosen.n, open: chosen.open, kind: '['}
 	if !byParam {
 		t.n++
@@ -943,6 +961,9 @@ func (g *G) condBlock(e env, nested bool) tmpl {
 		var vs []ref.Val
 		if !byParam {
 			v := iv(int64(sel))
+			if oct {
+				v = octv(int64(sel))
+			}
 			if big && r.IntN(3) == 0 {
 				v = bv(fwPick(r, intGrid))
 				if x, _ := v.Int(); x.IsInt64() && 0 <= x.Int64() && x.Int64() < int64(n) {
